@@ -19,7 +19,7 @@ RULE = ("exhaustive row CONTENTS (every letter assignment) x every w 1..5, total
         "length is below the window are outside the domain. Non-trivial = some row length in {0, w-1, w, w+1}, or w = 1, "
         "or >= 2 rows")
 EXHAUSTIVE = {"quick": False, "thorough": False}
-MODEL_OPS = {"kmers", "minimizers", "match", "pwm", "count", "kenc"}
+MODEL_OPS = {"kmers", "minimizers", "match", "match_same", "pwm", "count", "kenc"}
 PARALLEL = 16
 ASSUMPTIONS = [
     "npstructures: RaggedArray(flat, lengths, safe_mode=False)[..., :e] addresses row i as flat[start_i : start_i + len(row_i[:e])] "
@@ -40,7 +40,8 @@ MANIFEST = {
             "(rolling_rowlocal; also with trailing partial results, as PWM scoring produces). Instances: k-mers (dot with "
             "|A|^arange(k) = little-endian base-|A| number; digits render back to the window under |A|^k <= 2^63), minimizers "
             "(two nested applications), string matching, PWM shifted accumulation = per-window sum in offset order over any "
-            "additive structure, k-mer counts as the caller reads them (label -> number of windows spelling it). The 2-bit packed path "
+            "additive structure, rolling_window(mode='same') (values of the fitting windows then zeros, whatever the out-of-buffer "
+            "trailing windows return; observed through StringMatcher.rolling_window), k-mer counts as the caller reads them (label -> number of windows spelling it). The 2-bit packed path "
             "(BitArray.pack / sliding_window on uint64 registers: shifts, or, mask) is modelled literally and PROVED equal to the "
             "generic base-4 hash for every k <= 31 (packedKmers_eq, packed_eq_generic, kmers_dispatch). The refutation of the shipped slice [..., :(-w+1)] at w = 1 is kept. "
             "Correspondence: implementation vs Lean model vs Lean spec vs Python oracle.",
@@ -114,6 +115,15 @@ def impl(c):
             seq = _input(c, ascii_ok=True)
             r = match_string(seq, pat if c.get("via") == "ascii" else as_encoded_array(pat, _enc(alpha)))
             return {"rows": _ragged_out(r, flat, bool)}
+        if op == "match_same":
+            # RollableFunction.rolling_window(mode="same") through the public StringMatcher class
+            from bionumpy.encoded_array import as_encoded_array
+            from bionumpy.sequence.string_matcher import StringMatcher
+            alpha = c["alpha"]
+            enc = _enc(alpha)
+            pat = as_encoded_array("".join(alpha[x] for x in c["pat"]), enc)
+            r = StringMatcher(pat, enc).rolling_window(_input(c), mode="same")
+            return {"rows": _ragged_out(r, flat, bool)}
         if op == "pwm":
             from bionumpy.sequence.position_weight_matrix import PWM
             alpha = c["alpha"]
@@ -159,10 +169,12 @@ def oracle(c):
         return {"codes": [_code(n, km) for km in c["kmers"]], "text": _texts(alpha, c["kmers"])}
     rows = c["rows"]
     total = sum(len(r) for r in rows)
-    w = {"kmers": c.get("k"), "minimizers": c.get("w"), "match": len(c.get("pat", [])),
+    w = {"kmers": c.get("k"), "minimizers": c.get("w"), "match": len(c.get("pat", [])), "match_same": len(c.get("pat", [])),
          "pwm": len(c.get("matrix", [])), "count": c.get("k")}[op]
     if w < 1 or total < w:
         return SKIP
+    if op == "match_same":   # one value per position: the windows that fit in the row, then False
+        return {"rows": [[x == c["pat"] for x in _wins(r, w)] + [False] * (len(r) - max(0, len(r) - w + 1)) for r in rows]}
     if op in ("kmers", "minimizers", "count") and not (1 <= c["k"] <= 31):
         return SKIP
     if op == "kmers":
@@ -304,6 +316,8 @@ def _ops_for(rng, alpha, rows, w, big, shape="ragged"):
     pats.append([rng.randrange(n) for _ in range(w)])
     for p in pats[: (4 if big else 3)]:
         yield dict(base, op="match", pat=p)
+        if w <= 6 or rng.random() < 0.3:
+            yield dict(base, op="match_same", pat=p)
         if alpha in ("ACGT", "ACGTN", "AB") and rng.random() < 0.3:
             yield dict(base, op="match", pat=p, via="ascii")
     if w <= 12:
@@ -422,7 +436,7 @@ def cases(tier, rng):
 
 
 def _w(c):
-    return {"kmers": c.get("k"), "minimizers": c.get("w"), "match": len(c.get("pat", [])),
+    return {"kmers": c.get("k"), "minimizers": c.get("w"), "match": len(c.get("pat", [])), "match_same": len(c.get("pat", [])),
             "pwm": len(c.get("matrix", [])), "count": c.get("k"), "kenc": c.get("k")}[c["op"]]
 
 
